@@ -246,12 +246,18 @@ def PQ.remove (s : PQ T β) (t : T) : Option (PQ T β) :=
   | none => none
   | some v => some ⟨B.mark v.2 s.pq, emErase t s.emap, s.counter⟩
 
+/-- `if task in self._entry_map: self.remove(task)` -/
+def PQ.dropOld (s : PQ T β) (t : T) : PQ T β :=
+  match emLookup t s.emap with
+  | none => s
+  | some _ => (s.remove B t).getD s
+
+/-- the rest of `add`: `count = next(counter); entry = [priority, count, task]; …` -/
+def PQ.pushNew (s : PQ T β) (t : T) (p : Int) : PQ T β :=
+  ⟨B.push ⟨-p, s.counter, some t⟩ s.pq, emSet t (-p, s.counter) s.emap, s.counter + 1⟩
+
 /-- `add(task, priority)` with the default `priority_key` (`-float(p or 0)`) -/
-def PQ.add (s : PQ T β) (t : T) (p : Int) : PQ T β :=
-  match (match emLookup t s.emap with
-         | none => s
-         | some _ => (s.remove B t).getD s) with
-  | s1 => ⟨B.push ⟨-p, s1.counter, some t⟩ s1.pq, emSet t (-p, s1.counter) s1.emap, s1.counter + 1⟩
+def PQ.add (s : PQ T β) (t : T) (p : Int) : PQ T β := PQ.pushNew B (s.dropOld B t) t p
 
 /-- the `while self._pq:` loop of `_cull` -/
 def cull : Nat → β → β
@@ -270,29 +276,31 @@ def cull : Nat → β → β
 
 def emptyOut (dflt : Bool) : Out T := if dflt then .dflt else .indexError
 
-/-- `peek(default)` -/
-def PQ.peek (s : PQ T β) (dflt : Bool) : PQ T β × Out T :=
-  match cull B (B.size s.pq) s.pq with
-  | b =>
-    if B.size b = 0 then (⟨b, s.emap, s.counter⟩, emptyOut dflt)
-    else match B.front b with
-      | none => (⟨b, s.emap, s.counter⟩, emptyOut dflt)
-      | some e => (⟨b, s.emap, s.counter⟩, match e.task with | some t => .task t | none => .sentinel)
+/-- `peek(default)` after `_cull()` left the backend `b` -/
+def PQ.peekAt (s : PQ T β) (b : β) (dflt : Bool) : PQ T β × Out T :=
+  if B.size b = 0 then (⟨b, s.emap, s.counter⟩, emptyOut dflt)
+  else match B.front b with
+    | none => (⟨b, s.emap, s.counter⟩, emptyOut dflt)
+    | some e => (⟨b, s.emap, s.counter⟩, match e.task with | some t => .task t | none => .sentinel)
 
-/-- `pop(default)` -/
-def PQ.pop (s : PQ T β) (dflt : Bool) : PQ T β × Out T :=
-  match cull B (B.size s.pq) s.pq with
-  | b =>
-    if B.size b = 0 then (⟨b, s.emap, s.counter⟩, emptyOut dflt)
-    else match B.popFront b with
-      | none => (⟨b, s.emap, s.counter⟩, emptyOut dflt)
-      | some (e, b') =>
-        match e.task with
+def PQ.peek (s : PQ T β) (dflt : Bool) : PQ T β × Out T :=
+  s.peekAt B (cull B (B.size s.pq) s.pq) dflt
+
+/-- `pop(default)` after `_cull()` left the backend `b` -/
+def PQ.popAt (s : PQ T β) (b : β) (dflt : Bool) : PQ T β × Out T :=
+  if B.size b = 0 then (⟨b, s.emap, s.counter⟩, emptyOut dflt)
+  else match B.popFront b with
+    | none => (⟨b, s.emap, s.counter⟩, emptyOut dflt)
+    | some (e, b') =>
+      match e.task with
+      | none => (⟨b', s.emap, s.counter⟩, .keyError)
+      | some t =>
+        match emLookup t s.emap with
         | none => (⟨b', s.emap, s.counter⟩, .keyError)
-        | some t =>
-          match emLookup t s.emap with
-          | none => (⟨b', s.emap, s.counter⟩, .keyError)
-          | some _ => (⟨b', emErase t s.emap, s.counter⟩, .task t)
+        | some _ => (⟨b', emErase t s.emap, s.counter⟩, .task t)
+
+def PQ.pop (s : PQ T β) (dflt : Bool) : PQ T β × Out T :=
+  s.popAt B (cull B (B.size s.pq) s.pq) dflt
 
 def PQ.step (s : PQ T β) : Op T → PQ T β × Out T
   | .add t p => (s.add B t p, .none)
